@@ -455,6 +455,19 @@ let () =
         (match comb_case ids pos0 files trexes refs obs with
          | None -> Printf.printf "OK %s\n" id
          | Some m -> Printf.printf "MISMATCH %s %s\n" id m)
+      | ["X"; id; opt; ids; groups; obs] ->
+        let ids = L.map n_of_bigdec (split_on ',' ids) in
+        let g = L.map2 (fun t s -> (t, L.map C11Spec.to_full (parse_data_samples s))) ids (split_on '|' groups) in
+        let m = match C11FetchModel.write_mux_segment (opt = "1") ids g with
+          | Ok fe ->
+            "ok|" ^ S.concat ";" (L.map (fun t ->
+                dec_of_n t ^ "=" ^ (match C11FetchModel.read_back
+                                            { C05Model.tx_track = t; tx_ddur = n_of_int 7; tx_dsize = n_of_int 1; tx_dflags = n_of_int 65536 }
+                                            N0 [] fe with
+                                    | Ok l -> fulls_string l | _ -> "err")) ids)
+          | r -> class_of r in
+        if m = obs then Printf.printf "OK %s\n" id
+        else Printf.printf "MISMATCH %s mux-segment(opt=%s) model=%s\n" id opt (if S.length m > 600 then S.sub m 0 600 else m)
       | ["I"; id; kind; ids; inputs; obs] ->
         let m = init_case kind ids inputs in
         if m = obs then Printf.printf "OK %s\n" id
